@@ -12,9 +12,9 @@ start barrier, repetitions); a report whose stack has a frame in the repository 
 prescribed companion of the scheduler, not the decider for interleavings.
 """
 import itertools
-import core, zckref, universe
+import core, zckref, universe, httpsim
 
-SCENS = ["copy", "write", "read", "validate", "feed"]
+SCENS = ["copy", "write", "read", "validate", "feed", "feedmp", "life", "writez", "misc"]
 
 
 def thread_data(t, seed):
@@ -24,7 +24,20 @@ def thread_data(t, seed):
     fn, hn, bodyn = zckref.build_file(pieces, comp=0, htype=1, ctype=3)
     fz, hz, bodyz = zckref.build_file(pieces, comp=2, htype=1, ctype=3)
     pn = zckref.parse(fn)
-    return {"pieces": pieces, "none": fn, "zstd": fz, "body": fn[pn.header_len:], "content": b"".join(pieces)}
+    # three chunks, the middle one already in the target: the request has two ranges, the answer is multipart/byteranges
+    p3 = [x(blk["a"]), x(blk["c"]), x(blk["b"])]
+    f3, h3, body3 = zckref.build_file(p3, comp=0, htype=1, ctype=3)
+    q3 = zckref.parse(f3)
+    ext = zckref.extents(q3)
+    t0 = bytearray(b"\xaa" * len(f3)); t0[:q3.header_len] = f3[:q3.header_len]
+    off, ln = ext[2]; t0[off:off + ln] = f3[off:off + ln]
+    rngs = [(ext[1][0], ext[1][0] + ext[1][1] - 1), (ext[3][0], ext[3][0] + ext[3][1] - 1)]
+    hdr, mbody, layout = httpsim.multipart(f3, rngs, httpsim.Style(boundary="bnd%dx%s" % (t, "7" * (3 + 5 * t))))
+    ctype = [l for l in hdr if l.lower().startswith(b"content-type")][0]
+    dct = x(universe.DELTA_DICT)
+    fzd, hzd, bzd = zckref.build_file(pieces + [x(blk["d"])], comp=2, htype=2, ctype=0, dict_=dct)
+    return {"pieces": pieces, "none": fn, "zstd": fz, "body": fn[pn.header_len:], "content": b"".join(pieces),
+            "mp_target": bytes(t0), "mp_body": mbody, "mp_ctype": ctype, "dict": dct, "zstd_dict": fzd}
 
 
 def spec_line(slot, scen, d):
@@ -41,6 +54,14 @@ def spec_line(slot, scen, d):
         return "thread %d scen=validate a=%s" % (slot, bytes(f).hex())
     if scen == "feed":
         return "thread %d scen=feed b=%s a=%s" % (slot, d["none"].hex(), d["body"].hex())
+    if scen == "feedmp":
+        return "thread %d scen=feedmp b=%s a=%s c=%s" % (slot, d["mp_target"].hex(), d["mp_body"].hex(), d["mp_ctype"].hex())
+    if scen == "life":
+        return "thread %d scen=life a=%s" % (slot, d["zstd_dict"].hex())
+    if scen == "writez":
+        return "thread %d scen=writez a=%s c=%s" % (slot, (d["content"] * 3).hex(), d["dict"].hex())
+    if scen == "misc":
+        return "thread %d scen=misc a=%s b=%s" % (slot, d["zstd"].hex(), d["none"].hex())
     raise ValueError(scen)
 
 
